@@ -13,6 +13,40 @@ from . import ir
 from .constfold import Folder
 from .model import AnalysisError
 
+class Undecided(AnalysisError):
+    """a phi condition the caller gave no value for; `cond` is the condition term (see each_valuation)"""
+
+    def __init__(self, cond, msg):
+        super().__init__(msg)
+        self.cond = cond
+
+
+def each_valuation(fn, flags, limit=3):
+    """Evaluate fn(flags) for every valuation of the phi conditions it meets that `flags` does not decide (a defensive
+    `if column in frame.columns`, an option test): -> [(extra: {cond: bool}, result)]. A table has to be right on every path that a
+    run can take, so callers judge each valuation; more than `limit` undecided conditions is an analysis error."""
+    out = []
+
+    def rec(extra):
+        fl = dict(flags)
+        fl.update(extra)
+        try:
+            out.append((dict(extra), fn(fl)))
+        except Undecided as u:
+            if len(extra) >= limit:
+                raise
+            for v in (True, False):
+                e2 = dict(extra)
+                e2[u.cond] = v
+                rec(e2)
+    rec({})
+    return out
+
+
+def when(extra):
+    return "" if not extra else " [when " + " and ".join(("" if v else "not ") + ir.show(c, maxdepth=3) for c, v in extra.items()) + "]"
+
+
 R_, N_, U_ = ("param", "reporting_units"), ("param", "nonreporting_units"), ("param", "unexpected_units")
 FRAME_NAMES = {R_: "R", N_: "N", U_: "U"}
 
@@ -39,7 +73,7 @@ def linear(v, flags, problems, sign=1, filled=False):
         if c[0] == "const":
             return linear(v[2] if c[1] else v[3], flags, problems, sign, filled)
         if c not in flags:
-            raise AnalysisError(f"undecided condition in aggregate provenance: {ir.show(c, maxdepth=3)}")
+            raise Undecided(c, f"undecided condition in aggregate provenance: {ir.show(c, maxdepth=3)}")
         return linear(v[2] if flags[c] else v[3], flags, problems, sign, filled)
     if k == "rowsel":
         return linear(v[1], flags, problems, sign, filled)
